@@ -16,7 +16,7 @@ for d in sorted(glob.glob(os.path.join(here, 'seeded', pid + '-*'))):
     prior.append('- ' + m.get('summary', '')[:330].replace('\n', ' '))
 files = '\n'.join('  ' + f for f in prop['anchors']['files'])
 mech = '\n'.join('  - %s (%s)' % (m['name'], m['where']) for m in prop['anchors'].get('mechanism', []))
-wt = '/tmp/mw/' + pid
+wt = os.environ.get('MW_PREFIX', '/tmp/mw/') + pid
 print(f"""You are helping to evaluate a verification effort for the Rust workspace zeichenreihe/feather-build-rs (Java class-file reading/writing `duke`, `raw_class_file`, jar handling `dukebox`, `dukenest`, Minecraft mapping tooling `quill`, `maven_dependency_resolver`, and a binary crate in `src/`). You work ONLY inside your own scratch git worktree `{wt}` (it is a worktree of the repository at its current HEAD; it builds offline: always pass `--offline` to cargo and set CARGO_NET_OFFLINE=true; there is no network). Never touch /repo or /verif, and do not read anything under /verif.
 
 The property (a semantic guarantee users of the code rely on):
@@ -49,6 +49,6 @@ For EACH change n write into `{wt}/out/<n>/` (create the directory; `out/` is no
   - `demo.diff`: a demonstration as `git diff` output relative to the clean HEAD that ONLY ADDS new files (a new test file such as `duke/tests/seeded_demo_<n>.rs`, or a new `#[cfg(test)]` module file plus nothing else - if it must be wired into an existing file, keep that to one added `mod` line) - a test or small program that PASSES on the clean HEAD and FAILS with patch.diff applied. It must fail because the property is broken (compare with the expected semantic result), deterministically, offline, in well under a minute. Make `git add -N` for new files before `git diff` so that they show up in the diff;
   - `meta.json`: {{"property": "{pid}", "summary": "<which file/function was changed and how, 2-4 sentences>", "needs": "<what specific input / fault / sequence / environment it needs in order to manifest, and what is unaffected>", "kind": "<a|b|c|d|e>", "demo_cmd": "<one shell command, run from the worktree root, that runs only your demonstration, e.g. CARGO_NET_OFFLINE=true cargo test -p duke --offline --test seeded_demo_<n>>", "ran": ["<each command you ran to confirm and its outcome>"]}}.
 
-Procedure for each change, and you must really run it: start from a clean tree (`git checkout -- . && git clean -fd -e out`); apply demo only -> demo_cmd exits 0; apply demo + patch -> demo_cmd exits non-zero; clean again, apply patch only -> the full existing suite exits 0. Both diffs must apply to the clean HEAD with `git apply` independently of each other (demo.diff must not contain the patch and vice versa). Leave the worktree clean at the end (only `out/` remains). Do not commit anything.
+Procedure for each change, and you must really run it: start from a clean tree (`git checkout -- . && git clean -fd -e out`); apply demo only -> demo_cmd exits 0; apply demo + patch -> demo_cmd exits non-zero; clean again, apply patch only -> the full existing suite exits 0. Both diffs must apply to the clean HEAD with `git apply` independently of each other (demo.diff must not contain the patch and vice versa). Leave the worktree clean at the end (only `out/` remains). Do not commit anything, and do NOT use `git stash` (the stash is shared with other helpers' worktrees): keep diffs as files under `out/` and undo with `git apply -R` or `git checkout -- .`.
 
 Cargo feature `verif` exists on some crates (off by default); ignore it: do not use it, do not change code guarded by it. Report at the end, per change: one paragraph saying what it does and what it needs to manifest.""")
